@@ -2,7 +2,7 @@
    [handle_message] is the model of Server::handle_message (Model/Server.v); [answer] (query
    answering, C05) and [verify] (TSIG HMAC verification, C10/C11) are universally quantified. *)
 From QV Require Import Model.ZoneTree Model.Query Model.MsgWriter Spec.MsgWriterS Proofs.MsgWriterNameP Model.QueryW Proofs.ServerEchoWP
-  Proofs.ServerPlainP.
+  Proofs.ServerPlainP Proofs.ServerHdrP.
 From QV Require Import Base.ListX Model.NameWire Model.Reader Model.RdataLite Model.Server
   Spec.NameWireS Spec.NameRepr Spec.ReaderS Spec.MsgWalkS Proofs.ReaderP Proofs.ServerP Proofs.ServerEchoP.
 
@@ -105,6 +105,16 @@ Theorem c03_plain_response_decodes : forall buf tcp id rd qname qt qc edns limit
     end.
 Proof. exact respond_plain_decodes. Qed.
 
+(* ... and for the ANSWERED responses ([respond_w]: the whole query answering of C05 through the Writer of
+   C12): the message starts with the given ID (big-endian) and its third octet has QR = 1, opcode 0 and RD as
+   given, whatever query answering does (AA / TC share that octet and are set and cleared on the way; the
+   RCODE is in the next one).  Invariant HK through every Writer-interface operation, clear_rrs and finish. *)
+Theorem c03_answered_response_header : forall negttl buf tcp id rd qname qtype qclass edns limit z len b,
+  respond_w negttl buf tcp id rd qname qtype qclass edns limit z = Some (len, b) ->
+  slice b 0 2 = be16 id /\
+  exists x, nth_error b 2 = Some x /\ (x < 256)%N /\ N.testbit x 7 = true /\ ((x / 8) mod 16 = 0)%N /\ N.testbit x 0 = rd.
+Proof. exact respond_w_header. Qed.
+
 (* Non-vacuity: wWw.a. IN A, mixed case, REFUSED: the 11 question octets come back unchanged *)
 Example c03_echo_example :
   let req := [18;52; 1;0; 0;1; 0;0; 0;0; 0;0; 3;119;87;119;1;97;0; 0;1; 0;1]%N in
@@ -125,3 +135,4 @@ Print Assumptions c03_question_octets.
 Print Assumptions c03_writer_keeps_question.
 Print Assumptions c03_question_echo_octets.
 Print Assumptions c03_plain_response_decodes.
+Print Assumptions c03_answered_response_header.
